@@ -1,3 +1,5 @@
+//go:build all || c19
+
 package props
 
 import (
